@@ -51,7 +51,7 @@ NUMPY_FACTS = {
 }
 
 
-def check(run, P):
+def _check_main(run, P):
     run.rule("C09.total", "every kind handler returns a kind expression on every "
              "non-raising path", minimum=14)
     run.rule("C09.arity", "declared result names, returned kind tuples and Python "
@@ -606,3 +606,9 @@ def _realness(e, fn: Func, env=None):
     if isinstance(e, ast.UnaryOp):
         return _realness(e.operand, fn, env)
     return "unknown"
+
+
+def check(run, P):
+    _check_main(run, P)
+    from . import generic
+    generic.lints(run, P, "C09")
